@@ -4,7 +4,7 @@ data socket, processing returns normally, malformed input has no effect, and the
 cannot raise in any reachable world.  Property theorems only.
 (The codec's `parse_only_valueerror` and the trxcon half are proved in their own modules.)
 -/
-import OsmoVerif.Lemmas.WorldCtrl
+import OsmoVerif.Lemmas.WorldSane
 
 namespace OsmoVerif.Props.C14
 open OsmoVerif OsmoVerif.World OsmoVerif.PyStr
@@ -77,5 +77,44 @@ theorem recv_data_queues (w : World) (i : Nat) (d : List Nat) (t : Trx) (m : Trx
     (hv : m.ver = t.hdrVer) (hr : t.running = true) :
     (recvDataMsg w i d).world = setTrx w i (fun t => { t with txQueue := t.txQueue ++ [m] }) :=
   recvDataMsg_queued d ht hm hv hr
+
+/-! ### the clock tick (clck_tick → forward_msg → handle_data_msg → send_msg)
+
+`Sane` (Lemmas/WorldSane.lean) is the invariant of reachable worlds: every configured hopping
+object came out of `HoppingParams.__init__` (so `resolve` is total), `burst_drop_period ≥ 1`,
+`burst_drop_amount ≥ 0`, the ToA/C-I thresholds and (while enabled) the RSSI threshold are ≥ 0,
+`clck_src` exists while the generator runs, queued messages are as `parse_msg` leaves them
+(fn/tn/pwr set, burst byte-valued). -/
+
+/-- the start-up world of `Application.__init__` (any `--trx` list it accepts) is sane -/
+theorem sane_build (seed : Nat) (extra : List (Nat × Nat × Nat)) (w : World)
+    (h : build seed extra = .ok w) : Sane w :=
+  build_sane h
+
+/-- every operation — any control datagram, any data datagram (an octet string), tick, clock
+jump — keeps the invariant.  This is what breaks if a negative FAKE_TOA/FAKE_CI threshold, a
+non-positive FAKE_DROP period or an HSN outside 0..63 is accepted again. -/
+theorem sane_step (w : World) (op : Op) (ho : op.Octets) (h : Sane w) : Sane (step w op).world :=
+  step_sane op ho h
+
+/-- in a sane world the clock tick cannot raise: no ZeroDivisionError (drop period), no
+ValueError from `randint` (thresholds), no IndexError/ZeroDivisionError from the hopping
+generator, no TypeError/struct.error/AttributeError from message translation and encoding. -/
+theorem tick_never_raises (w : World) (h : Sane w) : (tick w).exc = none :=
+  (tick_ok h).1
+
+/-- whole histories from a sane world: no operation raises (control and data operations
+addressed to existing transceivers, data datagrams being octet strings), the final world is sane -/
+theorem run_never_raises (w : World) (ops : List Op) (h : Sane w)
+    (hops : ∀ op ∈ ops, op.Octets ∧ op.InRange w.trxs.length) :
+    Sane (run w ops).1 ∧ ∀ r ∈ (run w ops).2, r.exc = none :=
+  run_ok ops w h hops
+
+/-- … in particular every history of the start-up world -/
+theorem built_run_never_raises (seed : Nat) (extra : List (Nat × Nat × Nat)) (w : World)
+    (ops : List Op) (hb : build seed extra = .ok w)
+    (hops : ∀ op ∈ ops, op.Octets ∧ op.InRange w.trxs.length) :
+    ∀ r ∈ (run w ops).2, r.exc = none :=
+  (run_ok ops w (build_sane hb) hops).2
 
 end OsmoVerif.Props.C14
